@@ -9,11 +9,15 @@ HOOKS = {
     "guard": "verif",
     "enable": "harness is built with `go1.26 test -c -tags verif` against /repo's working tree (module replace => /repo)",
     "baseline_off_cmd": "cd /repo && go test -mod=mod -vet=off -count=1 -timeout 25m ./...",
-    "source_commits": [],
+    "source_commits": ["9a44b60"],
     "add_only": True,
 }
 
 ENGINES = [
+    {"name": "auth", "path": "lib/domain.py (c14) + harness/authprobe + tla/{AuthTable,Auth,AuthTrace}.tla", "serves_properties": ["C14"],
+     "kind_free_text": "TLC-checked request-path model; real handler probed with the full table; rows validated by TLC"},
+    {"name": "defs", "path": "lib/domain.py (c17) + harness/defsprobe + tla/{Defs,DefsGen,DefsTrace}.tla", "serves_properties": ["C17"],
+     "kind_free_text": "TLC enumerates definition cases; real loader / Equals probed; rows validated by TLC"},
     {"name": "e1-core", "path": "lib/e1.py + harness/driver + tla/{Props,Prunner,ObsTrace}.tla",
      "serves_properties": ["C01", "C02", "C03", "C04", "C05", "C06", "C07", "C08", "C10", "C11", "C12", "C15", "C16"],
      "kind_free_text": "TLC model checking of Prunner.tla against Props.tla; TLC-simulated behaviours replayed as scripts on the real "
@@ -60,6 +64,25 @@ CHECKS = {
     "C16": e1("commands / env / task set seen by the injected runner must be those of the version at acceptance; reload steps are inert; "
               "all jobs of defined pipelines terminal at drain.", "DESIGN.md 6 C16"),
 }
+
+DOMAIN_NOTE = ("Trusted: TLC, the Go probe that executes the cases and records the rows. The case space is the finite one written in the "
+               "spec (enumerated completely); surface syntax / byte-level payloads beyond it are sampled, not modelled.")
+
+CHECKS["C14"] = {"engine": "auth", "level": "model_checking", "ref": "DESIGN.md 6 C14",
+                 "text": "Auth.tla models the request path (router, verifier, authenticator, handler / profiler mount); TLC explores every request "
+                         "of Kinds x Creds x Transports x Profiling and checks handler-only-if-valid. Every row of the same table is sent as a real "
+                         "request to the real http.Handler (routes discovered from the chi router, 15 credential classes built by the harness, "
+                         "header / cookie transports, profiling on and off, a runner holding running, waiting and finished jobs) and TLC validates "
+                         "each recorded row (status, state digest before/after, leak markers in the body) against the spec's RowOK.",
+                 "note": DOMAIN_NOTE + " JWT cryptography of jwtauth/jwx is trusted. A token whose header claims RS256 but which carries a valid "
+                         "HMAC-SHA256 signature made with the configured secret is accepted by the library; it is not counted as an invalid class.",
+                 "technique": "TLA+ spec of the auth path model-checked with TLC; full request table replayed on the real handler; rows validated by TLC against the spec"}
+CHECKS["C17"] = {"engine": "defs", "level": "model_checking", "ref": "DESIGN.md 6 C17",
+                 "text": "Defs.tla transcribes defaulting, validation, merge of a file sequence and equality; TLC enumerates 2019 cases (full product "
+                         "of the per-field domains + file layouts) and checks LoadedAreValid / OrderIndependent on the expected results; each case is "
+                         "written as YAML (two layouts / spellings) and loaded by the real LoadRecursively; Equals is exercised on single-field "
+                         "variants generated by reflection over all fields (future fields included); TLC validates every recorded row.",
+                 "note": DOMAIN_NOTE, "technique": "TLA+ spec enumerated by TLC as case generator and oracle; rows recorded from the real loader / Equals validated by TLC"}
 
 NA = {}
 
